@@ -90,8 +90,14 @@ func c06Years(c *ctx) {
 			}
 			rows := [][]int{}
 			wide := c.tier == "thorough" || k%4 == y%4
-			for _, n := range ns {
-				if !wide && (n > 13 || n < -13 || n == 12 || n == -12) {
+			nsAll := ns
+			if y%10 == 0 && k%13 == y%13 {
+				// one start month of every tenth year also moves by a Metonic cycle and two (235, 470 months), each
+				// compared with the same move made one month at a time
+				nsAll = append(append([]int{}, ns...), 235, -235, 470, -470)
+			}
+			for _, n := range nsAll {
+				if !wide && (n > 13 || n < -13 || n == 12 || n == -12) && n < 200 && n > -200 {
 					continue
 				}
 				if y+n/12-1 < 1 || y+n/12+1 > 9997 {
